@@ -248,6 +248,12 @@ def lies_of(t, v, env, tier):
         if len(path) > 4:
             continue
         k = nt["k"]
+        if path and len(path) <= 3:
+            for lab in ("tagbomb", "lenbomb", "wrongtag", "longer") + (("badeoc",) if k in ("seq", "list") else ()):
+                out.append(("ber:" + lab, ("ber",), {path: {lab: 1}}))
+        if k == "cho" and nt["x"] is not None:
+            out.append(("choice:xindex=n", ("uper",), {path: {"xindex": len(nt["x"])}}))
+            out.append(("choice:xindex=64", ("uper",), {path: {"xindex": 64}}))
         if k == "list":
             n = len(nv)
             for lab, a in (("announce+1", n + 1), ("announce+200", n + 200), ("announce+70000", n + 70000), ("announce-1", n - 1), ("announce=201", 201)):
